@@ -56,5 +56,113 @@ Theorem C07_effects_once_and_ordered :
     exists probes shares announces,
       snd (ingest covert_check live cfg st r) = probes ++ shares ++ announces /\
       forallb is_probe probes = true /\ forallb is_share shares = true /\ forallb is_announce announces = true.
-Proof. intros. split; [apply ingest_effect_counts | apply ingest_effect_order]. Qed.
+Proof. exact ingest_effects_once_and_ordered. Qed.
 Print Assumptions C07_effects_once_and_ordered.
+
+(* ------------------------------------------------------------------ whole messages *)
+
+(* parseRegMessage yields exactly the requested families (v4: the message asks for it, the station has
+   IPv4 enabled and the registrant's address is IPv4; v6: asked for and enabled), provided each of them
+   can be built; otherwise the message is dropped as a whole. *)
+Theorem C07_message_drafts :
+  forall select params_ok dst_port geoip_ok cfg w p,
+    w_payload w = Some p ->
+    (message_ok select params_ok dst_port geoip_ok cfg w p = true ->
+       exists l4 l6, parse_reg_message select params_ok dst_port geoip_ok cfg w = Ok (l4 ++ l6) /\
+         (if want cfg w p false then exists r, l4 = [r] /\ new_reg select params_ok dst_port geoip_ok cfg w p false = Ok r else l4 = []) /\
+         (if want cfg w p true then exists r, l6 = [r] /\ new_reg select params_ok dst_port geoip_ok cfg w p true = Ok r else l6 = [])) /\
+    (message_ok select params_ok dst_port geoip_ok cfg w p = false ->
+       parse_reg_message select params_ok dst_port geoip_ok cfg w = Err ErrBuild).
+Proof. exact parse_spec. Qed.
+Print Assumptions C07_message_drafts.
+
+(* A registration can be built for a family iff: the registrar's override (if any) is a valid address of
+   that family, the generation is known (a phantom can be selected), the transport is enabled, its
+   parameters parse and give a port, the registrant's address is an address, an IPv4 phantom goes with
+   an IPv4 registrant, and the GeoIP lookups succeed. *)
+Theorem C07_buildable_iff :
+  forall select params_ok dst_port geoip_ok cfg w p v6,
+    (exists r, new_reg select params_ok dst_port geoip_ok cfg w p v6 = Ok r) <->
+    buildable select params_ok dst_port geoip_ok cfg w p v6 = true.
+Proof. exact new_reg_ok_iff. Qed.
+Print Assumptions C07_buildable_iff.
+
+(* The headline statement for a whole message: something is announced iff the message has a payload
+   (complete), every requested family can be built, and for the announced family the draft is admissible
+   in the table state it meets; what is announced is that draft with the checked covert literal. *)
+Theorem C07_message_announced_iff_admissible :
+  forall select params_ok dst_port geoip_ok covert_check live cfg st w r',
+    In (Announce r') (snd (process select params_ok dst_port geoip_ok covert_check live cfg st w)) <->
+    exists p v6 r lit,
+      w_payload w = Some p /\ message_ok select params_ok dst_port geoip_ok cfg w p = true /\
+      want cfg w p v6 = true /\
+      new_reg select params_ok dst_port geoip_ok cfg w p v6 = Ok r /\
+      admissible covert_check live cfg (state_before select params_ok dst_port geoip_ok covert_check live cfg st w p v6) r = true /\
+      covert_check (r_covert r) = Some lit /\ r' = set_covert r lit.
+Proof. exact process_announce_iff. Qed.
+Print Assumptions C07_message_announced_iff_admissible.
+
+(* Necessity, one conjunct at a time. *)
+Theorem C07_admissible_conjuncts_necessary :
+  forall covert_check live cfg st r,
+    admissible covert_check live cfg st r = true ->
+    complete r = true /\ transport_enabled cfg (r_transport r) = true /\ reg_phantom_blocked cfg r = false /\
+    tracked st r = false /\ covert_ok covert_check r = true /\ (needs_probe r = true -> probe_live live r = false).
+Proof. exact admissible_conjuncts. Qed.
+Print Assumptions C07_admissible_conjuncts_necessary.
+
+Theorem C07_buildable_conjuncts_necessary :
+  forall select params_ok dst_port geoip_ok cfg w p v6,
+    buildable select params_ok dst_port geoip_ok cfg w p v6 = true ->
+    override_valid w v6 = true /\
+    select (w_secret w) (c_gen p) (c_libver p) v6 <> None /\
+    transport_enabled cfg (c_transport p) = true /\
+    params_ok (c_transport p) (c_libver p) (effective_params w p) = true /\
+    dst_port (w_secret w) (c_transport p) (c_libver p) (effective_params w p) v6 <> None /\
+    valid_ip (regaddr_of w) = true /\
+    (exists ph, phantom_of select w p v6 = Some ph /\ (is_v4 ph = true -> is_v4 (regaddr_of w) = true)) /\
+    geoip_ok (regaddr_of w) = true.
+Proof. exact buildable_conjuncts. Qed.
+Print Assumptions C07_buildable_conjuncts_necessary.
+
+(* A message one of whose requested families cannot be built changes nothing and has no effect. *)
+Theorem C07_unbuildable_message_dropped :
+  forall select params_ok dst_port geoip_ok covert_check live cfg st w p v6,
+    w_payload w = Some p -> want cfg w p v6 = true ->
+    buildable select params_ok dst_port geoip_ok cfg w p v6 = false ->
+    process select params_ok dst_port geoip_ok covert_check live cfg st w = (st, []).
+Proof. exact process_dropped. Qed.
+Print Assumptions C07_unbuildable_message_dropped.
+
+Theorem C07_no_payload_no_effect :
+  forall select params_ok dst_port geoip_ok covert_check live cfg st w,
+    w_payload w = None -> process select params_ok dst_port geoip_ok covert_check live cfg st w = (st, []).
+Proof. exact process_no_payload. Qed.
+Print Assumptions C07_no_payload_no_effect.
+
+(* Lookups after a message: what they returned before plus what was announced, nothing else. *)
+Theorem C07_message_never_visible_otherwise :
+  forall select params_ok dst_port geoip_ok covert_check live cfg st w,
+    visible_all (fst (process select params_ok dst_port geoip_ok covert_check live cfg st w)) =
+    visible_all st ++ announced_regs (snd (process select params_ok dst_port geoip_ok covert_check live cfg st w)).
+Proof. exact process_visible. Qed.
+Print Assumptions C07_message_never_visible_otherwise.
+
+(* One client message is passed on to the peers at most once (the IPv6 twin of a dual-stack message
+   never shares).  Assumed about phantom selection: an IPv6 selection is not an IPv4 address (C14). *)
+Theorem C07_share_at_most_once :
+  forall select params_ok dst_port geoip_ok covert_check live,
+    (forall s g l ip, select s g l true = Some ip -> is_v4 ip = false) ->
+    forall cfg st w,
+      (count is_share (snd (process select params_ok dst_port geoip_ok covert_check live cfg st w)) <= 1)%nat.
+Proof. exact process_share_at_most_once. Qed.
+Print Assumptions C07_share_at_most_once.
+
+(* What is shared is marked pre-scanned, sourced DetectorPrescan, and is the client's own message. *)
+Theorem C07_shared_is_marked_prescanned :
+  forall r s, generate_c2s_wrapper r = Some s ->
+    sh_source s = src_detector_prescan /\ c_prescanned (sh_payload s) = true /\
+    sh_secret s = r_secret r /\ sh_regaddr s = r_regaddr r /\
+    exists p, r_orig r = Some p /\ sh_payload s = set_prescanned p.
+Proof. exact shared_is_marked. Qed.
+Print Assumptions C07_shared_is_marked_prescanned.
